@@ -143,7 +143,8 @@ def observe(Q, d, h):
         # two levels: the statement that embeds the inner query is itself embedded (the immediate frame is still that of pos)
         al2 = "sqy" if pos2 in ("from", "join", "select-item") else ""
         mid, mid_b = (outer.as_(al2), outer_b.as_(al2)) if al2 else (outer, outer_b)
-        mid._c10_hist = mid_b._c10_hist = []
+        # (the embedding statement's select-list arity, for a set-operation partner of the same width: select-item positions select two items)
+        mid._c10_hist = mid_b._c10_hist = [{"m": "select", "terms": [None] * (2 if pos.startswith("select-item") else 1)}]
         outer, outer_b = embed(env, Q, mid, pos2), embed(env, Q, mid_b, pos2)
     render = (lambda x: x.get_sql(Q.SQL_CONTEXT)) if pos == "create-as" else str
     to, tb, ti, tbi = lexs(render(outer)), lexs(render(outer_b)), lexs(inner_alone), lexs(benign_alone)
